@@ -1,7 +1,7 @@
 (* C08 - No goroutine outlives the injector blocked forever. *)
 From Coq Require Import List Arith Bool.
 Import ListNotations.
-Require Import Sem2 Safe Fault Finite.
+Require Import Sem2 Safe Fault Finite Leak.
 
 (* Normal return: in every reachable state of every program - failures and cancellation included - if the injector's
    own thread has returned through its final path (after eg.Wait()) then every goroutine has ended. *)
@@ -36,3 +36,13 @@ Print Assumptions C08_refuted.
 Theorem C08_executions_finite : forall p ls s, run p (init p) ls = Some s -> length (filter noncancel ls) <= bound p.
 Proof. exact runs_are_finite. Qed.
 Print Assumptions C08_executions_finite.
+
+(* The complete picture, for EVERY program and every execution (failures and cancellation at any point): once the
+   injector has returned, either every goroutine has ended, or the injector's own thread returned EARLY - observing a
+   context error at one of its own waits, or with the error of a provider it invoked itself (KF-C08-1's mechanism, which
+   leaves the errgroup's context uncancelled).  A goroutine left behind after a nil return, or after an error that came
+   out of eg.Wait(), contradicts this theorem and is reported as a new violation by the dynamic monitor. *)
+Theorem C08_modulo_known : forall p ls s e, run p (init p) ls = Some s -> nth_error (s_thr s) 0 = Some (TDone e) ->
+  (forall t st, nth_error (s_thr s) t = Some st -> isdone st = true) \/ exists e', e = Some e' /\ early p s e'.
+Proof. exact leak_only_after_early_return. Qed.
+Print Assumptions C08_modulo_known.
